@@ -66,7 +66,15 @@ impl Watch {
     }
 }
 
-pub const WATCHDOG_SECS: u64 = 20;
+pub const WATCHDOG_SECS: u64 = 30;
+/// per-plan limit: base + 1 s per 5 KB of document (stretched documents read in 1-byte pieces on a loaded machine)
+pub fn watchdog_limit(p: &Plan) -> u64 {
+    if p.scenario.starts_with("corpus") {
+        WATCHDOG_SECS_CORPUS
+    } else {
+        WATCHDOG_SECS + (p.doc.len() as u64) / 5_000
+    }
+}
 /// corpus plans run thousands of executions each
 pub const WATCHDOG_SECS_CORPUS: u64 = 600;
 
@@ -76,7 +84,7 @@ fn spawn_watchdog(watch: Arc<Watch>, prop: &'static str, replay_dir: String) {
         for slot in &watch.slots {
             let s = slot.lock().unwrap();
             if let (Some(t), Some(p)) = (s.started, &s.plan) {
-                let limit = if p.scenario.starts_with("corpus") { WATCHDOG_SECS_CORPUS } else { WATCHDOG_SECS };
+                let limit = watchdog_limit(p);
                 if t.elapsed().as_secs() >= limit {
                     let v = Violation::new(
                         if p.scenario == "de" { "C07" } else { "C03" },
@@ -223,7 +231,7 @@ pub fn replay(path: &str) -> i32 {
     // a replayed hang must not hang the replay: same wall-clock guard as the search
     {
         let (prop, kind, path) = (prop.clone(), kind.clone(), path.to_string());
-        let limit = if plan.scenario.starts_with("corpus") { WATCHDOG_SECS_CORPUS } else { WATCHDOG_SECS };
+        let limit = watchdog_limit(&plan);
         std::thread::spawn(move || {
             std::thread::sleep(std::time::Duration::from_secs(limit));
             println!("  observed: the run did not finish within {} s of wall time", limit);
